@@ -90,7 +90,7 @@ func (p *c20POnly) Count() int   { return p.A + 1 }
 
 type c20Lang string
 
-const c20NFixed = 15
+const c20NFixed = 18
 
 func c20Fixed(t int) interface{} {
 	mv := c20MV{A: 11, Lbl: "mv", hid: "secret"}
@@ -126,13 +126,20 @@ func c20Fixed(t int) interface{} {
 	case -15:
 		// keys whose spelling inside a template string needs escapes
 		return map[string]interface{}{"it's": "apostrophe", "say \"hi\"": "quotes", "C:\\temp": "backslash", "a\tb": "tab", "two words": "space", "name": "plain"}
+	case -16:
+		// keys that look like numbers, canonical and not: each is its own key
+		return map[string]interface{}{"02134": "zip-lead0", "2134": "zip", "+7": "plus7", "7": "seven", "007": "bond", "1": "one", "name": "digits"}
+	case -17:
+		return map[interface{}]interface{}{"1": "str-one", "02": "str-02", "name": "iface-digits"}
+	case -18:
+		return map[string]string{"01": "a", "1": "b", "7": "c"}
 	case -14:
 		return map[c20Lang]interface{}{"name": "named-key-2", "sub": map[string]interface{}{"z": 7}, "inner": map[c20Lang]string{"name": "deeper"}}
 	}
 	panic("fixed type")
 }
 
-var c20FixedAttrs = []string{"City", "Zip", "Name", "A", "B", "C", "Lbl", "Get", "PGet", "Twice", "hid", "name", "sub", "sub.z", "inner.name", "st.B", "st.A", "st.Get", "nope", "c20MV", "c20Emb", "Only", "Count", "it's", "say \"hi\"", "C:\\temp", "a\tb", "two words"}
+var c20FixedAttrs = []string{"City", "Zip", "Name", "A", "B", "C", "Lbl", "Get", "PGet", "Twice", "hid", "name", "sub", "sub.z", "inner.name", "st.B", "st.A", "st.Get", "nope", "c20MV", "c20Emb", "Only", "Count", "it's", "say \"hi\"", "C:\\temp", "a\tb", "two words", "02134", "2134", "+7", "7", "007", "1", "02", "01"}
 
 // ---- generated types ---------------------------------------------------------------------------
 
@@ -339,7 +346,7 @@ func checkC20(c C20Case) error {
 			}
 			continue
 		}
-		if !st.Idx && strings.ContainsAny(st.Attr, "'\"\\\t\n ") {
+		if !st.Idx && (strings.ContainsAny(st.Attr, "'\"\\\t\n +") || (st.Attr != "" && st.Attr[0] >= '0' && st.Attr[0] <= '9')) {
 			continue // such a name can only be written in the index form
 		}
 		v := c20Value(c, st.T, st.Ptr)
